@@ -50,10 +50,13 @@ fn like_enc<A: Encode + EncodeLike<B>, B: Encode>(cx: &mut Cx, fam: &str, a: &A,
 	}
 }
 
-fn round<T: Uni + Encode + Decode + Clone + EncodeLike + 'static>(cx: &mut Cx, tn: &str)
-where
-	T: Ord,
-{
+fn round<T: Uni + Encode + Decode + Clone + EncodeLike + Ord + 'static>(cx: &mut Cx, tn: &str) {
+	round_holders::<T>(cx, tn);
+	round_ord::<T>(cx, tn);
+}
+
+/// the families that need no order on the element type: holders, lifting, sequences, lists
+fn round_holders<T: Uni + Encode + Decode + Clone + EncodeLike + 'static>(cx: &mut Cx, tn: &str) {
 	let x = T::gen(&mut cx.rng, 0);
 	let y = T::gen(&mut cx.rng, 0);
 	let xs: Vec<T> = Vec::<T>::gen(&mut cx.rng, 1);
@@ -109,6 +112,12 @@ where
 	let tup: Vec<(T,)> = xs.iter().cloned().map(|t| (t,)).collect();
 	like_enc::<LinkedList<T>, &[(T,)]>(cx, &format!("LinkedList<{tn}>->&[(T,)]"), &ll, &&tup[..]);
 	like::<&[(T,)], LinkedList<T>>(cx, &format!("&[({tn},)]->LinkedList<T>"), &&tup[..], &ll, true);
+}
+
+/// sets, heaps and maps keyed by the element type
+fn round_ord<T: Uni + Encode + Decode + Clone + EncodeLike + Ord + 'static>(cx: &mut Cx, tn: &str) {
+	let xs: Vec<T> = Vec::<T>::gen(&mut cx.rng, 1);
+	let tup: Vec<(T,)> = xs.iter().cloned().map(|t| (t,)).collect();
 	let set: BTreeSet<T> = xs.iter().cloned().collect();
 	let setr: BTreeSet<&T> = xs.iter().collect();
 	like::<BTreeSet<&T>, BTreeSet<T>>(cx, &format!("BTreeSet<&{tn}>->BTreeSet<T>"), &setr, &set, true);
@@ -149,6 +158,18 @@ pub fn run(args: &Args) {
 		round::<Option<u16>>(&mut cx, "Option<u16>");
 		round::<bool>(&mut cx, "bool");
 		round::<()>(&mut cx, "()");
+		// derived element types (the derive emits the holders' in-place decoding for transparent ones)
+		round_holders::<S1>(&mut cx, "S1");
+		round_holders::<S2>(&mut cx, "S2");
+		round_holders::<Cp>(&mut cx, "Cp");
+		round_holders::<Sk>(&mut cx, "Sk");
+		round_holders::<E1>(&mut cx, "E1");
+		round_holders::<Nt>(&mut cx, "Nt");
+		round_holders::<G<u16>>(&mut cx, "G<u16>");
+		round_holders::<Tr>(&mut cx, "Tr");
+		round_holders::<TrC>(&mut cx, "TrC");
+		round_holders::<TrK>(&mut cx, "TrK");
+		round_holders::<TrP>(&mut cx, "TrP");
 		// strings and byte buffers
 		let s = String::gen(&mut cx.rng, 0);
 		like::<&str, String>(&mut cx, "&str->String", &&s[..], &s, true);
@@ -188,7 +209,7 @@ pub fn run(args: &Args) {
 		let ob = OptionBool::gen(&mut cx.rng, 0);
 		like::<Box<OptionBool>, OptionBool>(&mut cx, "Box<OptionBool>->OptionBool", &Box::new(ob), &ob, true);
 	}
-	let rule = "every EncodeLike family of the crate used through the trait bound (holders Box/&/&&/&mut/Cow/Rc/Arc/Ref, Option/Result/array/tuple lifting, Vec/VecDeque/slices, LinkedList/BTreeSet/BinaryHeap/BTreeMap and slices of tuples in both directions, String/&str, Bytes/&[u8]/Vec<u8>, CompactRef, derived types, BitVec/BitBox, GenericArray) over ten element types with seeded values: the bytes of A vs the encoding of the value it stands for, decoding as B, and the model's encoding of the target value; non-trivial = non-empty bytes";
+	let rule = "every EncodeLike family of the crate used through the trait bound (holders Box/&/&&/&mut/Cow/Rc/Arc/Ref, Option/Result/array/tuple lifting, Vec/VecDeque/slices, LinkedList/BTreeSet/BinaryHeap/BTreeMap and slices of tuples in both directions, String/&str, Bytes/&[u8]/Vec<u8>, CompactRef, derived types, BitVec/BitBox, GenericArray) over nine primitive/std element types and eleven derived element types (structs, enum, compact/skipped fields, generic, repr(transparent) with and without compact) with seeded values: the bytes of A vs the encoding of the value it stands for, decoding as B, and the model's encoding of the target value; non-trivial = non-empty bytes";
 	cx.cases.write(&args.out, "c16", args.shards);
 	cx.oracle.write(&args.out);
 	cx.stats.write(&args.out, cx.cases.len(), cx.cases.nontrivial, cx.cases.dups, cx.oracle.checks, rule);
